@@ -3,7 +3,8 @@ from vf import gen, corecheck as cc, framework as fw, model_pubsub
 
 RULE = ("sysnotif profile: 2-5 modules subscribing (literal, some catch-all regex) to the five system topics before and during "
         "1-3 loop runs while the other modules are started, paused, resumed, stopped, pilled and deregistered from every place; "
-        "optional context tick; both driving modes. Soundness: per recipient the n-th notification (topic, named module) must be "
+        "optional context tick; both driving modes; tick_rearm profile: the tick is re-configured inside the running loop (1-2 ms -> 40-100 ms, "
+        "optionally off in between) and the run then lasts 20-30 ms of real time. Soundness: per recipient the n-th notification (topic, named module) must be "
         "preceded by >= n observed occurrences of that transition / loop event, carries no payload, loop notifications name nobody, "
         "the internal poison pill is never handed over; tick count <= elapsed/period + 1 per arming. Completeness (clean cases "
         "only): a module that held a literal normal-priority subscription and stayed RUNNING over the whole loop run received the "
@@ -27,6 +28,11 @@ def run(tier):
             c = cc.Case()
             c.sc, c.profile, c.mode, c.seed = sc, "sysnotif", m, s
             cases.append(c)
+
+    for k in range(24 if tier == "quick" else 400):
+        c = cc.Case()
+        c.sc, c.profile, c.mode, c.seed = gen.gen_tick_rearm(seed * 1000 + k), "tick_rearm", ("loop" if k % 2 else "dispatch"), seed * 1000 + k
+        cases.append(c)
 
     def oracle(case):
         return model_pubsub.check_c19(case, stats)
